@@ -88,11 +88,12 @@ Theorem C16_comment_is_one_token : forall ulower b rest r,
 Proof. exact scan_block_comment. Qed.
 Print Assumptions C16_comment_is_one_token.
 
-(* [at_ r t]: the exact reader r (3-slot ring, pushback, CR folding) will deliver the CR-folded text t.
+(* [at_ T r t]: the exact reader r (3-slot ring, pushback, CR folding) is a cursor into the CR-folded text T and
+   will deliver the text t.
    Two spellings of one gap, of any lengths, in front of the same text: each scans as one WS token followed by
    the same tokens and literals, to any depth f *)
-Theorem C16_gap_spelling_irrelevant : forall ulower f r1 r2 c1 w1 c2 w2 d rest,
-  at_ r1 (c1 :: w1 ++ d :: rest) -> at_ r2 (c2 :: w2 ++ d :: rest) -> r_n r1 <= 2 -> r_n r2 <= 2 ->
+Theorem C16_gap_spelling_irrelevant : forall ulower T1 T2 f r1 r2 c1 w1 c2 w2 d rest,
+  at_ T1 r1 (c1 :: w1 ++ d :: rest) -> at_ T2 r2 (c2 :: w2 ++ d :: rest) -> r_n r1 <= 2 -> r_n r2 <= 2 ->
   is_whitespace c1 = true -> is_whitespace c2 = true -> ws_text w1 -> ws_text w2 -> is_whitespace d = false -> d <> 0 ->
   exists tail,
     map tl_of (fst (scan_all ulower (S f) r1 [])) = (WS, c1 :: w1) :: tail /\
@@ -101,8 +102,8 @@ Proof. exact gap_spelling. Qed.
 Print Assumptions C16_gap_spelling_irrelevant.
 
 (* a block comment flanked by whitespace in place of plain whitespace: WS COMMENT WS instead of WS, same tokens behind *)
-Theorem C16_comment_in_gap : forall ulower f r1 r2 c1 w1 b c3 w3 c2 w2 d rest,
-  at_ r1 (c1 :: w1 ++ 47 :: 42 :: b ++ 42 :: 47 :: c3 :: w3 ++ d :: rest) -> at_ r2 (c2 :: w2 ++ d :: rest) ->
+Theorem C16_comment_in_gap : forall ulower T1 T2 f r1 r2 c1 w1 b c3 w3 c2 w2 d rest,
+  at_ T1 r1 (c1 :: w1 ++ 47 :: 42 :: b ++ 42 :: 47 :: c3 :: w3 ++ d :: rest) -> at_ T2 r2 (c2 :: w2 ++ d :: rest) ->
   r_n r1 <= 2 -> r_n r2 <= 2 ->
   is_whitespace c1 = true -> is_whitespace c2 = true -> is_whitespace c3 = true -> ws_text w1 -> ws_text w2 -> ws_text w3 ->
   block_body b -> is_whitespace d = false -> d <> 0 ->
@@ -113,12 +114,12 @@ Proof. exact comment_in_gap. Qed.
 Print Assumptions C16_comment_in_gap.
 
 (* readers that deliver the same text produce the same tokens and literals, whatever is in their rings *)
-Theorem C16_same_text_same_tokens : forall ulower f r1 r2 t, at_ r1 t -> at_ r2 t -> r_n r1 <= 2 -> r_n r2 <= 2 ->
+Theorem C16_same_text_same_tokens : forall ulower T1 T2 f r1 r2 t, at_ T1 r1 t -> at_ T2 r2 t -> r_n r1 <= 2 -> r_n r2 <= 2 ->
   map tl_of (fst (scan_all ulower f r1 [])) = map tl_of (fst (scan_all ulower f r2 [])).
 Proof. exact same_text_same_tokens. Qed.
 Print Assumptions C16_same_text_same_tokens.
 
 (* non-vacuity: the gap " \r\n\t" in front of "b"; CR LF folds to LF in the delivered text *)
 Example C16_gap_example :
-  at_ (new_reader ([32; 13; 10; 9; 98] : text)) (32 :: [10; 9] ++ 98 :: []).
+  at_ (fold_cr [32; 13; 10; 9; 98]) (new_reader ([32; 13; 10; 9; 98] : text)) (32 :: [10; 9] ++ 98 :: []).
 Proof. exact (at_new [32; 13; 10; 9; 98]). Qed.
